@@ -29,6 +29,13 @@ type Sim struct {
 	Opt    SimOptions
 	aliasRejected []aliasRej
 	curOp  *Op
+	statsFlagged  map[string]bool
+	flushIdx      int
+	sentBy        map[string][]byte
+	flushFlagged  map[string]bool
+	inl           *inlineState
+	pendingInline []pendingInline
+	reported      map[string]map[string]int
 }
 
 type SimOptions struct {
@@ -38,11 +45,13 @@ type SimOptions struct {
 	FirstHooks []eng.HookSpec
 	NoAuthHook bool
 	AuthDeny   func(string) bool
+	CheckStats bool // compare $SYS counters with actual state after every step (C38)
+	CheckFlush bool // compare OnPacketSent bytes with bytes on the wire after every step (C34)
 }
 
 func NewSim(cfg *Config, opt SimOptions) *Sim {
 	s := &Sim{Cfg: cfg, Opt: opt, M: NewModel(cfg)}
-	o := eng.Options{Inline: cfg.Inline, WriteBuf: cfg.WriteBuf, ExtraHooks: opt.ExtraHooks, FirstHooks: opt.FirstHooks, NoAuthHook: opt.NoAuthHook, AuthDeny: opt.AuthDeny}
+	o := eng.Options{Inline: cfg.Inline, WriteBuf: cfg.WriteBuf, ExtraHooks: opt.ExtraHooks, FirstHooks: opt.FirstHooks, NoAuthHook: opt.NoAuthHook, AuthDeny: opt.AuthDeny, RecordBytes: opt.CheckFlush}
 	o.Caps = func(c *mqtt.Capabilities) {
 		c.MaximumQos = cfg.MaxQoS
 		if cfg.RetainAvailable {
@@ -359,6 +368,10 @@ func (s *Sim) endStep() {
 	}
 	m.dropsAllowed = 0
 	s.progressCheck()
+	s.aliasRejectionCheck()
+	s.statsCheck()
+	s.flushCheck()
+	s.inlineCheck()
 }
 
 func (s *Sim) onBrokerClosed(sl *Slot) {
@@ -561,6 +574,7 @@ func (s *Sim) onBrokerPublish(sl *Slot, rp *eng.RxPacket) {
 	}
 	if ap, ok := p.Props.Get(rc.PTopicAlias); ok {
 		a := uint16(ap.Num)
+		m.count("outbound_alias_seen")
 		if sl.TAM == 0 || a > sl.TAM {
 			m.flag("C24/alias-out-of-range", map[string]string{"tam": fmt.Sprint(sl.TAM)}, "slot %d: PUBLISH uses topic alias %d but the client's Topic Alias Maximum is %d", sl.Idx, a, sl.TAM)
 		}
@@ -569,7 +583,10 @@ func (s *Sim) onBrokerPublish(sl *Slot, rp *eng.RxPacket) {
 		} else if t, ok := sl.aliasOut[a]; ok {
 			topic = t
 		} else {
-			m.flag("C24/unbound-alias", sl.taintAttrs(), "slot %d: PUBLISH with empty topic uses alias %d that no earlier PUBLISH on this connection bound", sl.Idx, a)
+			ua := sl.taintAttrs()
+			ua["mps_limited"] = fmt.Sprint(sl.MPS > 0)
+			ua["recv_max_limited"] = fmt.Sprint(sl.RecvMax > 0)
+			m.flag("C24/unbound-alias", ua,"slot %d: PUBLISH with empty topic uses alias %d that no earlier PUBLISH on this connection bound", sl.Idx, a)
 		}
 	} else if topic == "" {
 		m.flag("C24/empty-topic-no-alias", nil, "slot %d: PUBLISH with empty topic and no alias", sl.Idx)
@@ -643,6 +660,10 @@ func (s *Sim) onBrokerPublish(sl *Slot, rp *eng.RxPacket) {
 				}
 			}
 			m.flag("C16/will-published-not-due", attrs, "slot %d (%s): received will %s of %s on %q although the model says: %s", sl.Idx, sl.ClientID, msg.ID, msg.From, msg.Topic, attrs["disposition"])
+		} else if msg.ExpAt > 0 && m.ext().lastSweep > msg.ExpAt && !s.deliveredBefore(sl, msg) {
+			attrs["was_deferred"] = fmt.Sprint(sl.Sess != nil && sl.Sess.Taint["deferred"])
+			attrs["resend"] = fmt.Sprint(p.Dup)
+			m.flag("C25/expired-message-delivered", attrs, "slot %d (%s): first transmission of %s on %q although housekeeping ran at virtual time %d, after its expiry at %d (published %d, interval %d)", sl.Idx, sl.ClientID, msg.ID, msg.Topic, m.ext().lastSweep, msg.ExpAt, msg.PubAt, msg.ExpAt-msg.PubAt)
 		} else if s.deliveredBefore(sl, msg) {
 			m.flag("C03/duplicate-delivery", attrs, "slot %d (%s): second copy of %s (%s)", sl.Idx, sl.ClientID, msg.ID, msg.Topic)
 		} else {
